@@ -4,6 +4,7 @@ import ChiaModel.Lemmas.BlobL2
 import ChiaModel.Lemmas.BlobInv
 import ChiaModel.Lemmas.BlobBatch2
 import ChiaModel.Lemmas.BlobUps
+import ChiaModel.Lemmas.BlobProof
 /-
 C18 — the DataLayer Merkle blob stays a valid authenticated map under any history.
 Property theorems only (helper lemmas: Lemmas/Blob.lean).  All statements are about the executable
@@ -594,36 +595,296 @@ theorem inserts_upserts_history (ops : List Op)
     · subst e; exact linv_preserved_insert k v h loc s hs
     · subst e; exact linv_preserved_upsert k v h s hs
 
-/-- OPEN `inv_preserved`: the executable well-formedness `wf` (reachable blocks form a tree with
-consistent parent pointers, distinct keys and leaf hashes, caches = leaves, free list = unreachable
-indexes, stored hashes right up to dirtiness) and the local invariant are preserved by every
-operation.  Proved so far: `LInv` is preserved by `insert` and `upsert` (`linv_preserved_insert`,
-`linv_preserved_upsert`).  `LInv` alone is NOT inductive for `delete`: when the deleted leaf's parent
-is the root and its sibling a leaf, the sibling becomes a parentless leaf, and "a parentless leaf is
-the only leaf" needs the global fact that every live node is reachable from the root (a locally
-consistent component detached from the root is not excluded by local clauses) — that is part of `wf`. -/
-def InvPreserved : Prop :=
-  ∀ (op : Op) (s : Blob), wf s = true → wf (step op s).2 = true ∧ LInv (step op s).2
+/-! ## L2 → L1: the strengthened invariant, refinement of every operation, any history
 
-/-- OPEN `abs_commutes` (refinement L2 → L1): on well-formed states an operation
-succeeds exactly when the tree-level operation does, and the abstraction of the new state
-is the tree-level result -/
-def AbsCommutes : Prop :=
-  ∀ (op : Op) (s : Blob) (t : Tree), wf s = true → abs s = some t →
-    (errOf (step op s).1 = none ↔ (Tree.step op t).1 = true) ∧ abs (step op s).2 = some (Tree.step op t).2
+The local invariant `LInv` is not inductive for `delete` (a locally consistent component detached
+from the root is not excluded by local clauses).  The strengthened invariant adds the reachability
+fact: there is ONE index-annotated tree `t` (`Blob.IT`) such that the blocks store `t` below index 0
+(`Rep`: children pointers, parent pointers, clean leaves), every index below the blob's length is
+either a node of `t` or on the free list, once, and the two caches hold exactly the leaves of `t`
+(`Blob.Good`, `SInv`; `Lemmas/BlobRep.lean`).  It is decidable: `structOk` (Model/Blob.lean) reads
+the candidate tree off the blocks and checks the clauses; the driver evaluates it after every step.
+Stored hashes and dirty flags of internal nodes are deliberately not part of it (`SameShape`). -/
 
-/-- OPEN: `calculate_lazy_hashes` on blocks is `HT.recompute` on the abstraction (then `root_hash`
-and `proof_valid_after_recompute` apply to the blob) -/
-def HashesCommute : Prop :=
-  ∀ s : Blob, wf s = true → absH (calcLazyHashes s).2 = (absH s).map (Option.map HT.recompute)
+/-- the strengthened (structural) invariant -/
+def SOk (s : Blob) : Prop := ∃ t : Option IT, SInv s t
 
-/-- OPEN (second half of `reload`): the cache rebuilt by `MerkleBlob::new` equals the live cache, up
-to the order of the free list -/
-def ReloadCaches : Prop :=
-  ∀ s : Blob, wf s = true → ∃ n, ofBlocks s.blocks = some n ∧ (∀ k, mapGet n.k2i k = mapGet s.k2i k)
-    ∧ (∀ h, mapGet n.h2i h = mapGet s.h2i h) ∧ n.free.Perm s.free
+/-- `structOk` decides it -/
+theorem struct_ok_decides (s : Blob) : structOk s = true ↔ SOk s := structOk_iff s
 
-/-- OPEN: a well-formed state passes `check_integrity`, and `wf` implies the local invariant -/
-def IntegrityOfWf : Prop := ∀ s : Blob, wf s = true → checkIntegrity s = .ok ∧ LInv s
+theorem struct_ok_empty : structOk Blob.empty = true := by decide
+
+/-- the strengthened invariant implies the local one -/
+theorem struct_ok_linv (s : Blob) (h : structOk s = true) : LInv s := by
+  obtain ⟨t, ht⟩ := (structOk_iff s).mp h
+  cases t with
+  | none => simp only [SInv] at ht; subst ht; decide
+  | some t => exact Blob.Good.linv ht
+
+/-- **`inv_preserved`: the strengthened invariant is inductive for EVERY operation** (insert at any
+location, upsert, delete, batch insert, hash recomputation; successful or failed), and it implies
+the local invariant. -/
+theorem inv_preserved (op : Op) (s : Blob) (h : structOk s = true) :
+    structOk (step op s).2 = true ∧ LInv (step op s).2 := by
+  obtain ⟨t, ht⟩ := (structOk_iff s).mp h
+  obtain ⟨t', ht', _, _⟩ := step_refines ht op
+  have h' := (structOk_iff _).mpr ⟨t', ht'⟩
+  exact ⟨h', struct_ok_linv _ h'⟩
+
+/-- **`abs_commutes` (refinement L2 → L1):** on a state satisfying the invariant an operation
+succeeds exactly when the tree-level operation does, and the abstraction of the new state is the
+tree-level result — for every operation. -/
+theorem abs_commutes (op : Op) (s : Blob) (t : Tree) (h : structOk s = true) (ha : abs s = some t) :
+    (errOf (step op s).1 = none ↔ (Tree.step op t).1 = true) ∧ abs (step op s).2 = some (Tree.step op t).2 := by
+  obtain ⟨it, ht⟩ := (structOk_iff s).mp h
+  have e := ht.abs
+  rw [ha] at e
+  injection e with e
+  subst e
+  obtain ⟨t', ht', he, hsucc, _⟩ := step_refines ht op
+  exact ⟨hsucc, by rw [ht'.abs, he]⟩
+
+/-- the abstraction is defined on every state satisfying the invariant -/
+theorem abs_defined (s : Blob) (h : structOk s = true) : ∃ t, abs s = some t := by
+  obtain ⟨it, ht⟩ := (structOk_iff s).mp h
+  exact ⟨_, ht.abs⟩
+
+/-- **`integrity_of_inv`:** a state satisfying the invariant passes `check_integrity` (as is, and
+again after `calculate_lazy_hashes` on the clone) -/
+theorem integrity_of_inv (s : Blob) (h : structOk s = true) : checkIntegrity s = .ok := by
+  obtain ⟨it, ht⟩ := (structOk_iff s).mp h
+  exact checkIntegrity_good ht
+
+/-- `calculate_lazy_hashes` cannot fail on a state satisfying the invariant, so that a failed
+operation never changes the state (`fail_unchanged` covers the other operations) -/
+theorem hashes_never_fails (s : Blob) (h : structOk s = true) : errOf (step .hashes s).1 = none := by
+  have := (abs_commutes .hashes s _ h (abs_defined s h).choose_spec).1
+  exact this.mpr rfl
+
+theorem fail_unchanged_all (op : Op) (s : Blob) (h : structOk s = true) (hf : errOf (step op s).1 ≠ none) :
+    (step op s).2 = s := by
+  by_cases ho : op = .hashes
+  · subst ho; exact absurd (hashes_never_fails s h) hf
+  · exact fail_unchanged op s (struct_ok_linv s h) ho hf
+
+/-- the state and the abstract tree / specification map after a history, from given starting points -/
+theorem history_from (ops : List Op) :
+    ∀ (s : Blob) (t : Tree) (m : Map), structOk s = true → abs s = some t →
+    structOk (ops.foldl (fun s op => (step op s).2) s) = true
+      ∧ abs (ops.foldl (fun s op => (step op s).2) s) = some (runBoth ops (t, m)).1 := by
+  induction ops with
+  | nil => intro s t m h ha; exact ⟨h, ha⟩
+  | cons op rest ih =>
+    intro s t m h ha
+    simp only [List.foldl_cons, runBoth]
+    exact ih _ _ _ (inv_preserved op s h).1 (abs_commutes op s t h ha).2
+
+/-- **Any finite history on the block-array model, from the empty blob** (inserts at any location,
+upserts, deletes, batch inserts, hash recomputations; successful or failed): the reached state
+satisfies the strengthened and the local invariant, passes `check_integrity`, its abstraction is the
+tree reached by the same history on the tree model, keys and leaf hashes are pairwise distinct, and
+the key → value content equals that of a plain map subjected to the same successful operations. -/
+theorem history_refinement_l2 (ops : List Op) :
+    structOk (runHist ops) = true ∧ LInv (runHist ops) ∧ checkIntegrity (runHist ops) = .ok
+      ∧ ∃ t, abs (runHist ops) = some t ∧ t = (runBoth ops (none, [])).1
+        ∧ (Tree.keys t).Nodup ∧ (Tree.hashes t).Nodup
+        ∧ ∀ k, Map.lookup (Tree.toMap t) k = Map.lookup (runBoth ops (none, [])).2 k := by
+  obtain ⟨h1, h2⟩ := history_from ops Blob.empty none [] struct_ok_empty rfl
+  obtain ⟨k1, k2, k3⟩ := history_refinement_empty ops
+  exact ⟨h1, struct_ok_linv _ h1, integrity_of_inv _ h1, _, h2, rfl, k1, k2, k3⟩
+
+/-- each operation of a history succeeds on the blob exactly when it succeeds on the tree model -/
+theorem history_success_agrees (ops : List Op) (op : Op) :
+    errOf (step op (runHist ops)).1 = none ↔ (Tree.step op (runBoth ops (none, [])).1).1 = true := by
+  obtain ⟨h1, h2⟩ := history_from ops Blob.empty none [] struct_ok_empty rfl
+  exact (abs_commutes op _ _ h1 h2).1
+
+/-- **`hashes_commute`:** `calculate_lazy_hashes` on the blocks is `HT.recompute` on the abstraction
+with stored hashes and dirty flags (so `root_hash` and `proof_valid_after_recompute` speak about the
+blob whenever the stored hashes satisfy the hash invariant `Good`, which the driver evaluates as
+`hashesOk` on every state) -/
+theorem hashes_commute (s : Blob) (h : structOk s = true) :
+    absH (calcLazyHashes s).2 = (absH s).map (Option.map HT.recompute) := by
+  obtain ⟨it, ht⟩ := (structOk_iff s).mp h
+  exact Blob.hashes_commute ht
+
+/-- **`reload_caches`:** `MerkleBlob::new` on the blocks of a state satisfying the invariant rebuilds
+the caches: the same key → index and leaf-hash → index content, the same free indexes up to order;
+the reloaded state satisfies the invariant and has the same abstraction -/
+theorem reload_caches (s : Blob) (h : structOk s = true) :
+    ∃ n, ofBlocks s.blocks = some n ∧ n.blocks = s.blocks
+      ∧ (∀ k, mapGet n.k2i k = mapGet s.k2i k) ∧ (∀ hh, mapGet n.h2i hh = mapGet s.h2i hh)
+      ∧ n.free.Perm s.free ∧ structOk n = true ∧ abs n = abs s := by
+  obtain ⟨it, ht⟩ := (structOk_iff s).mp h
+  cases it with
+  | none =>
+    simp only [SInv] at ht
+    subst ht
+    exact ⟨Blob.empty, by decide, rfl, fun _ => rfl, fun _ => rfl, List.Perm.refl _, by decide, rfl⟩
+  | some t =>
+    have g : Blob.Good s t := ht
+    obtain ⟨n, e, hb, gn, hf⟩ := ofBlocks_good g
+    refine ⟨n, e, hb, ?_, ?_, hf, (structOk_iff n).mpr ⟨some t, gn⟩, by rw [gn.abs, g.abs]⟩
+    · intro k
+      exact mapGet_perm (gn.k2i.trans g.k2i.symm) gn.k2i_keys_nodup k
+    · intro hh
+      exact mapGet_perm (gn.h2i.trans g.h2i.symm) gn.h2i_keys_nodup hh
+
+/-- **`reload`:** serializing a state satisfying the invariant and loading the bytes with
+`MerkleBlob::new` yields the same blocks and bytes, caches with the same content, the same free
+indexes up to order, the same abstraction, and again a state satisfying the invariant.  (`BlockOk`:
+every field fits the byte format — indexes below 2^32, 32-byte hashes, 64-bit keys and values.) -/
+theorem reload (s : Blob) (h : structOk s = true) (hb : ∀ b ∈ s.blocks, BlockOk b) :
+    ∃ n, Blob.ofBytes s.bytes = some n ∧ n.blocks = s.blocks ∧ n.bytes = s.bytes
+      ∧ (∀ k, mapGet n.k2i k = mapGet s.k2i k) ∧ (∀ hh, mapGet n.h2i hh = mapGet s.h2i hh)
+      ∧ n.free.Perm s.free ∧ structOk n = true ∧ abs n = abs s := by
+  obtain ⟨n, e, hbl, hk, hh, hf, hs, ha⟩ := reload_caches s h
+  exact ⟨n, by rw [(reload_partial s hb).1, e], hbl, by simp [Blob.bytes, hbl], hk, hh, hf, hs, ha⟩
+
+/-! ## The stored hashes -/
+
+/-- **`hash_inv_preserved`:** the hash invariant (`hashesOk`: every clean internal node stores the
+Merkle hash of its subtree and has only clean descendants) is preserved by every operation — marking
+the lineage dirty suffices, and `calculate_lazy_hashes` re-establishes cleanliness. -/
+theorem hash_inv_preserved (op : Op) (s : Blob) (h : structOk s = true) (hh : hashesOk s = true) :
+    hashesOk (step op s).2 = true := by
+  obtain ⟨t, ht⟩ := (structOk_iff s).mp h
+  obtain ⟨t', ht', _, _, hl⟩ := step_refines ht op
+  exact (hashesOk_iff ht').mpr (hl ((hashesOk_iff ht).mp hh))
+
+/-- along any history from the empty blob the stored hashes satisfy the hash invariant -/
+theorem history_hashes_ok (ops : List Op) : hashesOk (runHist ops) = true := by
+  suffices ∀ (s : Blob), structOk s = true → hashesOk s = true →
+      hashesOk (ops.foldl (fun s op => (step op s).2) s) = true from this _ struct_ok_empty (by decide)
+  induction ops with
+  | nil => intro s _ h; exact h
+  | cons op rest ih =>
+    intro s hs hh
+    simp only [List.foldl_cons]
+    exact ih _ (inv_preserved op s hs).1 (hash_inv_preserved op s hs hh)
+
+/-- **Root hash and proofs at the end of any history.**  After any finite history from the empty
+blob followed by `calculate_lazy_hashes`: the operation succeeds, the content is unchanged, every
+node is clean, `get_root_hash` returns the Merkle root recomputed independently over the content,
+and every key has an inclusion proof over the stored hashes that is valid and ends in that root. -/
+theorem root_after_hashes (ops : List Op) (ht : HT) (ha : absH (runHist ops) = some (some ht)) :
+    errOf (step .hashes (runHist ops)).1 = none
+      ∧ absH (runHist (ops ++ [.hashes])) = some (some ht.recompute)
+      ∧ abs (runHist (ops ++ [.hashes])) = abs (runHist ops)
+      ∧ ht.recompute.allClean = true
+      ∧ rootHash (runHist (ops ++ [.hashes])) = .ok (some ht.erase.merkle)
+      ∧ ∀ k ∈ ht.erase.keys, ∃ p, ht.recompute.proofOf k = some p ∧ p.valid = true
+          ∧ p.rootHash = ht.erase.merkle := by
+  obtain ⟨hs, _⟩ := history_refinement_l2 ops
+  have hok := history_hashes_ok ops
+  have hrun : runHist (ops ++ [.hashes]) = (step .hashes (runHist ops)).2 := by
+    simp [runHist, List.foldl_append]
+  have hstep : (step .hashes (runHist ops)).2 = (calcLazyHashes (runHist ops)).2 := rfl
+  have hcomm := hashes_commute (runHist ops) hs
+  rw [ha] at hcomm
+  simp only [Option.map_some] at hcomm
+  -- the hash invariant on the tree with stored hashes
+  have hgood : Good ht := by
+    have : (ht.check).isSome = true := by
+      have := hok
+      unfold hashesOk at this
+      rw [ha] at this
+      exact this
+    cases hc : ht.check with
+    | none => rw [hc] at this; cases this
+    | some m => exact (check_good ht m hc).1
+  obtain ⟨hroot, herase, hclean, hg'⟩ := root_hash ht hgood
+  have hs' := (inv_preserved .hashes (runHist ops) hs).1
+  obtain ⟨it, hit⟩ := (structOk_iff _).mp hs'
+  refine ⟨hashes_never_fails _ hs, by rw [hrun, hstep, hcomm], ?_, hclean, ?_, ?_⟩
+  · rw [hrun]
+    obtain ⟨t0, ht0⟩ := abs_defined _ hs
+    rw [(abs_commutes .hashes _ t0 hs ht0).2, ht0]; rfl
+  · rw [hrun, hstep]
+    cases it with
+    | none =>
+      simp only [SInv] at hit
+      rw [hstep] at hit
+      rw [hit] at hcomm
+      have : absH Blob.empty = some none := rfl
+      rw [this] at hcomm
+      cases hcomm
+    | some t =>
+      have g : Blob.Good _ t := hit
+      rw [hstep] at g
+      have e := g.absH
+      rw [hcomm] at e
+      injection e with e; injection e with e
+      have hrc : (t.toHT (calcLazyHashes (runHist ops)).2.blocks).rootClean = true := by
+        rw [← e]
+        cases hr : ht.recompute with
+        | leaf _ _ _ => rfl
+        | node h d l r => rw [hr] at hclean; simp [HT.allClean] at hclean; simp [HT.rootClean, hclean.1.1]
+      rw [g.rootHash hrc, ← e, hroot]
+  · intro k hk
+    obtain ⟨p, hp, hv, hr, hm⟩ := proof_valid_after_recompute ht hgood k hk
+    exact ⟨p, hp, hv, by rw [hr, hm]⟩
+
+/-- **`proof_commutes`:** when every node is clean, `get_proof_of_inclusion` on the blocks (walking
+the parent pointers up from the leaf) returns exactly the proof read off the abstraction -/
+theorem proof_commutes (s : Blob) (ht : HT) (k : KeyId) (h : structOk s = true)
+    (ha : absH s = some (some ht)) (hc : ht.allClean = true) (hk : k ∈ ht.erase.keys) :
+    ∃ p, proofOfInclusion s k = .ok p ∧ ht.proofOf k = some p := by
+  obtain ⟨it, hit⟩ := (structOk_iff s).mp h
+  cases it with
+  | none =>
+    simp only [SInv] at hit
+    subst hit
+    have : absH Blob.empty = some none := rfl
+    rw [this] at ha; cases ha
+  | some t =>
+    have g : Blob.Good s t := hit
+    have e := g.absH
+    rw [ha] at e
+    injection e with e; injection e with e
+    subst e
+    exact Blob.proof_commutes g hc k (by rw [← IT.toHT_erase s.blocks t]; exact hk)
+
+/-- **The blob as an authenticated map, end to end.**  After any finite history from the empty blob
+followed by `calculate_lazy_hashes`, for every key of the content `get_proof_of_inclusion` succeeds
+and its proof is valid (`ProofOfInclusion::valid`) and ends in the hash `get_root_hash` returns,
+which is the Merkle root recomputed independently over the content. -/
+theorem authenticated_map (ops : List Op) (t : T) (ha : abs (runHist ops) = some (some t)) :
+    rootHash (runHist (ops ++ [.hashes])) = .ok (some t.merkle)
+      ∧ abs (runHist (ops ++ [.hashes])) = some (some t)
+      ∧ ∀ k ∈ t.keys, ∃ p, proofOfInclusion (runHist (ops ++ [.hashes])) k = .ok p ∧ p.valid = true
+          ∧ p.rootHash = t.merkle := by
+  -- the abstraction with hashes before the recomputation
+  obtain ⟨ht, hht, hte⟩ : ∃ ht, absH (runHist ops) = some (some ht) ∧ ht.erase = t := by
+    unfold abs at ha
+    cases hh : absH (runHist ops) with
+    | none => rw [hh] at ha; cases ha
+    | some o =>
+      cases o with
+      | none => rw [hh] at ha; cases ha
+      | some ht =>
+        rw [hh] at ha
+        simp only [Option.some.injEq] at ha
+        exact ⟨ht, rfl, ha⟩
+  obtain ⟨_, h2, h3, h4, h5, h6⟩ := root_after_hashes ops ht hht
+  have hs : structOk (runHist (ops ++ [.hashes])) = true := (history_refinement_l2 _).1
+  rw [hte] at h5 h6
+  refine ⟨h5, by rw [h3, ha], ?_⟩
+  intro k hk
+  obtain ⟨p, hp, hv, hr⟩ := h6 k hk
+  have hre : ∀ x : HT, x.recompute.erase = x.erase := by
+    intro x
+    induction x with
+    | leaf _ _ _ => rfl
+    | node h d l r ihl ihr =>
+      cases d with
+      | true => simp [HT.recompute, HT.erase, ihl, ihr]
+      | false => simp [HT.recompute]
+  have herase : ht.recompute.erase = t := by rw [hre, hte]
+  obtain ⟨q, hq1, hq2⟩ := proof_commutes _ ht.recompute k hs h2 h4 (by rw [herase]; exact hk)
+  rw [hp] at hq2
+  injection hq2 with hq2
+  subst hq2
+  exact ⟨p, hq1, hv, hr⟩
 
 end ChiaModel.C18
